@@ -208,6 +208,7 @@ Fixpoint argmin_q (l : list Q) (i best : nat) (bq : Q) : nat :=
   end.
 Inductive tolv := TolNone | TolInf | TolQ (q : Q).
 Definition locate_tol (xs : list pv) (v : pv) (tol : tolv) : res pv :=
+  match xs with [] => Err IndexError | _ =>
   match py_num v with
   | None => Err TypeError
   | Some qv =>
@@ -222,7 +223,7 @@ Definition locate_tol (xs : list pv) (v : pv) (tol : tolv) : res pv :=
       | _ => Ok (PInt (Z.of_nat m))
       end
     end
-  end.
+  end end.
 Definition h_locate_one (values val issorted tol side : pv) : res pv :=
   let! (_, xs) := as_list values in
   match tol with
